@@ -103,6 +103,9 @@ def precedence(e3):
             nm = [z3.BitVec(f"name_{i}", 32) for i in range(3)]
             has_global = z3.Bool("global_buckets")
             base = [z3.ULT(k1, bv(3)), z3.ULT(k2, bv(3))]
+            # patterns reach the DistributionBuilder sanitised (PrometheusBuilder::set_buckets_for_metric stores matcher.sanitized()) and names are
+            # sanitised before the lookup: every character is an ASCII name character, so byte length = number of characters
+            base += [z3.ULT(x, z3.BitVecVal(128, 32)) for x in p1 + p2 + nm]
             # the overrides come from a HashMap: the two matchers differ
             base.append(z3.Or(k1 != k2, z3.Not(MS.text_eq(tuple(p1), tuple(p2))) if len(p1) == len(p2) else z3.BoolVal(True)))
             mat = lambda k, p: Enum(k, {i: Agg({0: MS.sstr(tuple(p))}) for i in range(3)}, "Matcher")
@@ -166,12 +169,36 @@ def precedence(e3):
             cname = f"c15_precedence_p{plens[0]}{plens[1]}_o{order}"
             bounds = (f"DistributionBuilder::new with two overrides (kinds symbolic, patterns of {plens[0]} and {plens[1]} characters, map iteration order {order}), global buckets present or not; "
                       f"get_distribution / get_distribution_type of a 3-character name; {len(done)} paths")
+            done_ref = done
+
+            def on_model(ob, model, cname=cname, k1=k1, k2=k2, p1=p1, p2=p2, nm=nm, has_global=has_global, done_ref=done_ref):
+                import replay_e3
+                ev = lambda t: model.eval(t, model_completion=True)
+                chars = sorted({ev(x).as_long() for x in p1 + p2 + nm})
+                letter = {c: i for i, c in enumerate(chars)}          # order- and equality-preserving renaming to 'a', 'b', ...
+                inputs = {"kind1": ev(k1).as_long(), "kind2": ev(k2).as_long(), "global": int(z3.is_true(ev(has_global))), "len1": len(p1), "len2": len(p2)}
+                for nm_, seq in (("p1", p1), ("p2", p2), ("nm", nm)):
+                    for i, x in enumerate(seq):
+                        inputs[f"{nm_}_{i}"] = letter[ev(x).as_long()]
+                inputs["kFull"], inputs["kPrefix"], inputs["kSuffix"] = mk.index("Full"), mk.index("Prefix"), mk.index("Suffix")
+                ob.sample = dict(inputs)
+                os.makedirs(os.path.join(REPLAYS, "C15"), exist_ok=True)
+                pp = os.path.join(REPLAYS, "C15", f"{cname}.{ob.name.split(':')[1]}.plan")
+                open(pp, "w").write(replay_e3.plan_text("c15_precedence", ob.name.split(":")[1], {}, [], inputs))
+                status, out = replay_e3.run("c15", pp)
+                ob.detail += f" | native replay (c15, PrometheusBuilder with the two overrides, rendered le bounds): {status}"
+                ob.sample["native_replay"] = {"status": status, "output": out[-500:]}
+                ob.replay = pp
+                ob.reproduced = status == "reproduced"
+                if not ob.reproduced:
+                    ob.status = "error"
+                    ob.detail += " — counterexample did NOT reproduce natively: treated as an encoder/model problem, not reported as a violation"
             specs = [dict(name=f"{cname}:witness", desc="completes", bounds=bounds, cons=base + [z3.Or(*[l.taken() for l in done] or [z3.BoolVal(False)])], expect_unsat=False),
-                     dict(name=f"{cname}:returns", desc="panics or exceeds a loop bound", bounds=bounds, cons=base + [other], expect_unsat=True),
-                     dict(name=f"{cname}:full_then_prefix_then_suffix_then_global", desc="the buckets chosen for the name are not those of the matching override with the highest precedence (full name, then prefix, then suffix), "
+                     dict(name=f"{cname}:returns", desc="panics or exceeds a loop bound", bounds=bounds, cons=base + [other], expect_unsat=True, on_model=on_model),
+                     dict(name=f"{cname}:full_then_prefix_then_suffix_then_global", on_model=on_model, desc="the buckets chosen for the name are not those of the matching override with the highest precedence (full name, then prefix, then suffix), "
                           "then the global buckets, and otherwise a summary", bounds=bounds, cons=base + [z3.Or(*bad or [z3.BoolVal(False)])], expect_unsat=True),
                      dict(name=f"{cname}:type_string_agrees_with_distribution", desc="the TYPE string for the name disagrees with the kind of distribution built for it", bounds=bounds,
-                          cons=base + [z3.Or(*badty or [z3.BoolVal(False)])], expect_unsat=True)]
+                          cons=base + [z3.Or(*badty or [z3.BoolVal(False)])], expect_unsat=True, on_model=on_model)]
             check.discharge_many(e3.res, specs, 120)
 
 
@@ -238,11 +265,14 @@ def rolling_window(e3, nsamples, batch, nb, ordered=True):
         dist = yield ("call", new_b, [Opaque("quantiles"), d, n])
         yield ("setstatic", "dist", dist)
         dp = Ptr(("static", "dist"))
+        # the slices live in places of their own (the code may take references to their elements)
         if batch:
-            yield ("call", rec_b, [dp, MS.lvec(tuple(pairs))])
+            yield ("setstatic", "samples", MS.lvec(tuple(pairs)))
+            yield ("call", rec_b, [dp, Ptr(("static", "samples"))])
         else:
-            for p_ in pairs:
-                yield ("call", rec_b, [dp, MS.lvec((p_,))])
+            for n_, p_ in enumerate(pairs):
+                yield ("setstatic", f"samples{n_}", MS.lvec((p_,)))
+                yield ("call", rec_b, [dp, Ptr(("static", f"samples{n_}"))])
         dv = yield ("getstatic", "dist")
         # Distribution::Summary(rolling, quantiles, sum)
         sv = [pv for pv in dv.v.values() if pv.f and isinstance(pv.f.get(0), Agg)]
